@@ -349,6 +349,7 @@ func (r *Rig) drain() [][]byte {
 			if !ok {
 				r.OutClosed = true
 				r.out = nil
+				r.add(Entry{Kind: "closed"})
 				return frames
 			}
 			frames = append(frames, b)
@@ -357,6 +358,9 @@ func (r *Rig) drain() [][]byte {
 		}
 	}
 }
+
+// ChannelOpen reports whether the current connection's channel has not been closed by the engine.
+func (r *Rig) ChannelOpen() bool { return r.out != nil }
 
 // Connect opens a new connection (what an accepted socket / a dial does). Returns false if refused.
 func (r *Rig) Connect() (StepResult, bool) {
